@@ -18,6 +18,21 @@ CLAIMED = {
             "Trusted: CrossHair + z3; the representation invariant is checked to be inductive by two of the obligations; "
             "logging statements are compiled out (vlib.nolog).",
             "DESIGN.md §1 C04"),
+    "C08": ("CrossHair/z3 symbolic execution of the real combinator serialize/deserialize/calc_size on spec trees composed "
+            "from a leaf alphabet (one obligation per tree shape), with symbolic values, byte order, pod mode and trailing bytes",
+            "Bounded symbolic model checking: for each composed spec every value of its domain within the stated size bounds "
+            "is covered by exhaustive path exploration with z3 deciding each path; counterexamples are replayed concretely.",
+            "Trusted: CrossHair + z3 + vlib.chplugin (struct.Struct patch, lazy text formatting); float/UUID leaves use "
+            "catalogue constants; lazy_object_proxy replaced by a pure-Python stand-in; 64-bit ints: catalogue base + symbolic byte.",
+            "DESIGN.md §1 C08"),
+    "C10": ("AST->SMT translation (vlib.pysym) of the live quantisation methods into QF_BVFP with the raw wire value as a "
+            "bit-vector; z3 / cvc5 decide each obligation for all 2^8 / 2^16 raw values at once; translator validated against "
+            "the real methods on concrete points every run; sat models replayed on the real methods",
+            "SMT-decided for every raw value of every discovered instance (round trip, adjacent monotonicity, exact ends, "
+            "zero), i.e. exhaustive over the wire domain by solver, not by enumeration.",
+            "Trusted: pysym translator (validated per run), z3/cvc5 FP theories, element-wise numpy models listed per obligation; "
+            "QuantizedTime only for a sweep of concrete durations.",
+            "DESIGN.md §1 C10"),
 }
 
 NOT_APPLICABLE = {
